@@ -260,7 +260,7 @@ def points(ctx: Ctx, rep: Report) -> list[dict]:
     pts = [norm_point(p) for p in res.payloads]
     if len(pts) < 200:
         raise MachineryError(f"only {len(pts)} points emitted")
-    if {p["net"] for p in pts} != {"chain2", "branch", "rev", "cycle", "pl"}:
+    if {p["net"] for p in pts} != {"chain2", "branch", "rev", "cycle", "ia", "pl"}:
         raise MachineryError("a network of the family is missing from the emission")
     return pts
 
@@ -320,7 +320,7 @@ def run(ctx: Ctx) -> int:
     pts = points(ctx, rep)
     binding_selftest(pts, rep)
     rnd = random.Random(ctx.seed)
-    cap = 240 if ctx.quick else 4000
+    cap = 256 if ctx.quick else 4000
     pick = pts if len(pts) <= cap else rnd.sample(pts, cap)
     results = pmap(_seq_point, [(p, ctx.seed) for p in pick], chunk=4)
     worst_el = worst_rc = 0.0
